@@ -2,6 +2,7 @@ mod codec;
 mod model;
 mod pairs;
 mod replay;
+mod trace;
 mod views;
 
 use codec::*;
@@ -81,6 +82,18 @@ fn do_replay_pairs<P: PT>(opts: &HashMap<String, String>) -> Value {
     pairs::pair_report_json(&rep, P::NAME, coll)
 }
 
+fn do_trace<P: PT>(opts: &HashMap<String, String>) -> Value {
+    let seed = opts.get("seed").map(|s| s.parse().unwrap()).unwrap_or(1u64);
+    let runs = opts.get("runs").map(|s| s.parse().unwrap()).unwrap_or(4usize);
+    let events = opts.get("events").map(|s| s.parse().unwrap()).unwrap_or(500usize);
+    let prof = trace::Profile::named(opts.get("profile").map(|s| s.as_str()).unwrap_or("full"));
+    let path = opts.get("trace").expect("--trace FILE");
+    let mut f = std::io::BufWriter::new(std::fs::File::create(path).unwrap());
+    let r = trace::drive::<P>(seed, runs, events, &prof, &mut f);
+    f.flush().unwrap();
+    r
+}
+
 fn main() {
     // panics of the code under test are data; keep stderr quiet
     std::panic::set_hook(Box::new(|_| {}));
@@ -93,6 +106,10 @@ fn main() {
         "replay-pairs" => {
             let t = opts.get("type").map(|s| s.as_str()).unwrap_or("u32");
             with_type!(t, do_replay_pairs(&opts))
+        }
+        "trace" => {
+            let t = opts.get("type").map(|s| s.as_str()).unwrap_or("u32");
+            with_type!(t, do_trace(&opts))
         }
         "types" => json!(ALL_TYPES),
         _ => {
